@@ -5,6 +5,15 @@ HERE = os.path.dirname(os.path.dirname(os.path.abspath(__file__)))
 ALL = [f"C{i:02d}" for i in range(1, 19)]
 # property -> (technique, level text, level note, design_ref)
 CHECKS = {
+ "C04": ("runtime global monitor: adaptive cell-subdivision cubature of exp(log_prob) of the real distribution over the whole space "
+         "(tail-covering map, GL3 vs GL2 rules, convergence-certified asymmetric three-valued verdict) + seeded goodness-of-fit of the "
+         "real sampler against the cubature's own cell masses (DKW / Hoeffding bounds, false-alarm 1e-9)",
+         "Exploration: ~100 (distribution, parameter draw, condition) cases per quick run (all five factories x orientation x cond x "
+         "transformer in dim 1-2 + hand-built Transformed, sigma 0.3/0.6; 3e7 density evaluations, one sampler test per held case); "
+         "thorough adds sigma 1.0 and every case at every sigma.",
+         "Mass defects below 0.2 % (1-D) / 1 % (2-D) and sampler discrepancies below ~2.5 % CDF distance are out of resolution; "
+         "unconverged cubatures are inconclusive, never alarms; every architecture x orientation must have a conclusive case.",
+         "DESIGN.md 4/C04"),
  "C17": ("runtime reference-model monitor: loss values recomputed from the public log_prob / sample_and_log_prob in NumPy; the "
          "stick-the-landing gradient checked against plain gradient minus an independently computed score term; contrastive sets observed "
          "at the public log_prob boundary of a harness tag distribution (host callbacks) and the softmax cross-entropy recomputed from them",
